@@ -354,7 +354,7 @@ def _run(pr: PropertyRun, mod) -> int:
                     v["reproduced"], v["replay"] = True, path
         else:
             und = [u["obligation"] for u in pr.undecided if not u["obligation"].endswith("/*")] or [u["obligation"] for u in pr.undecided]
-            name = (und[0] + " [undecided by the solver; failing history found by the bounded native stand-in]") if und else "bounded:e2e_small_histories"
+            name = (und[0] + " [undecided by the solver; failing history found by the bounded native stand-in]") if und else ("bounded:cli_generated_inputs" if kind == "cli" else "bounded:e2e_small_histories")
             violations.append({"obligation": name, "replay": path, "reproduced": True})
     for b in bounded_fail:
         finding = match_finding(known, pid, "bounded:" + b["name"])
